@@ -610,8 +610,66 @@ def linear_part(methods):
     return out
 
 
-def generate(common_src, simple_src, fast_src, linear_src):
-    """Text of MlVerif/Gen/C09.lean (a pure function of the four sources)."""
+def py_part(py_src):
+    """leaf dispatch of piecewise_tree_regression.py (plain Python: parsed with ast directly)"""
+    out = ["", "-- PiecewiseTreeRegressor._predict_reglin / _fit_reglin"]
+    idx1 = idx2 = idx3 = leaf = None
+    tbl = {}
+    try:
+        tree = ast.parse(py_src)
+        fn = pyexpr.find_function(tree, "PiecewiseTreeRegressor._predict_reglin")
+        loops = [n for n in fn.body if isinstance(n, ast.For)]
+        if len(loops) == 1 and isinstance(loops[0].target, ast.Name) and len(loops[0].body) == 2:
+            lp = loops[0]
+            v = lp.target.id
+            a, b = lp.body
+            if isinstance(a, ast.Assign) and len(a.targets) == 1 and isinstance(a.targets[0], ast.Name) and \
+                    isinstance(a.value, ast.Subscript) and src_of(a.value.value) == "leaves" and \
+                    isinstance(b, ast.Assign) and len(b.targets) == 1 and src_of(b.targets[0]) == "pred[%s]" % v and \
+                    src_of(lp.iter) == "range(0, X.shape[0])":
+                lv = a.targets[0].id
+                c = b.value
+                if isinstance(c, ast.Call) and src_of(c.func) == "numpy.dot" and len(c.args) == 2:
+                    x, bt = c.args
+                    if isinstance(x, ast.Subscript) and src_of(x.value) == "Xone" and \
+                            isinstance(x.slice, ast.Tuple) and len(x.slice.elts) == 2 and \
+                            src_of(x.slice.elts[1]) == ":" and isinstance(bt, ast.Subscript) and \
+                            src_of(bt.value) == "self.betas_" and isinstance(bt.slice, ast.Tuple) and \
+                            len(bt.slice.elts) == 2 and src_of(bt.slice.elts[1]) == ":":
+                        idx1, idx2, idx3 = a.value.slice, x.slice.elts[0], bt.slice.elts[0]
+                        tbl = {v: ("i", "int"), lv: ("leaf", "int")}
+    except (SyntaxError, pyexpr.Unknown):
+        pass
+    s = Site(tbl)
+    out.append("def predLeafIdx (i : Int) : Int := %s" % s.int(idx1, "_predict_reglin leaves index"))
+    out.append("def predXRow (i : Int) : Int := %s" % s.int(idx2, "_predict_reglin Xone row"))
+    out.append("def predBetaRow (i leaf : Int) : Int := %s" % s.int(idx3, "_predict_reglin betas_ row"))
+    tbl2 = {}
+    try:
+        tree = ast.parse(py_src)
+        fn = pyexpr.find_function(tree, "PiecewiseTreeRegressor._fit_reglin")
+        loops = [n for n in fn.body if isinstance(n, ast.For)]
+        if len(loops) == 1 and src_of(loops[0].iter) == "enumerate(self.leaves_index_)" and \
+                isinstance(loops[0].target, ast.Tuple) and isinstance(loops[0].target.elts[0], ast.Name):
+            lp = loops[0]
+            v = lp.target.elts[0].id
+            srcs = [src_of(st) for st in lp.body]
+            need = ["xs = X[ind, :].copy()", "ys = y[ind].astype(numpy.float64)",
+                    "dec = LinearRegressorCriterion.create(xs, ys, ws)", "dec.node_beta(self.betas_[%s, :])" % v]
+            inds = [st for st in lp.body if isinstance(st, ast.Assign) and src_of(st.targets[0]) == "ind"]
+            if all(n in srcs for n in need) and len(inds) == 1 and isinstance(inds[0].value, ast.Compare) and \
+                    len(inds[0].value.ops) == 1 and isinstance(inds[0].value.ops[0], ast.Eq) and \
+                    src_of(inds[0].value.left) == "pred_leaves":
+                leaf = inds[0].value.comparators[0]
+                tbl2 = {v: ("i", "int")}
+    except (SyntaxError, pyexpr.Unknown):
+        pass
+    out.append("def fitLeaf (i : Int) : Int := %s" % Site(tbl2).int(leaf, "_fit_reglin leaf mask"))
+    return out
+
+
+def generate(common_src, simple_src, fast_src, linear_src, py_src):
+    """Text of MlVerif/Gen/C09.lean (a pure function of the five sources)."""
     cm = split_methods(common_src).get("CommonRegressorCriterion", {})
     sm = split_methods(simple_src).get("SimpleRegressorCriterion", {})
     fm = split_methods(fast_src).get("SimpleRegressorCriterionFast", {})
@@ -621,5 +679,6 @@ def generate(common_src, simple_src, fast_src, linear_src):
     rows += simple_part(sm)
     rows += fast_part(fm)
     rows += linear_part(lm)
+    rows += py_part(py_src)
     rows += ["", "end MlVerif.Gen.C09", ""]
     return "\n".join(rows)
